@@ -56,9 +56,30 @@ def cases(tier, seed):
     return out
 
 
+def static_fp(o, depth=0):
+    """content of the non-array (static) part of an object graph: field names, dictionary keys in insertion order, Python
+    scalars, names of callables -- a dictionary that gains a key, or a static field that is rebound, changes it"""
+    import dataclasses
+    if depth > 12:
+        return "..."
+    if isinstance(o, (jax.Array, np.ndarray)):
+        return "array"
+    if isinstance(o, eqx.Module) or dataclasses.is_dataclass(o) and not isinstance(o, type):
+        return (type(o).__name__,) + tuple((f.name, static_fp(getattr(o, f.name, None), depth + 1)) for f in dataclasses.fields(o))
+    if isinstance(o, dict):
+        return ("dict",) + tuple((str(k), static_fp(v_, depth + 1)) for k, v_ in o.items())
+    if isinstance(o, (list, tuple)):
+        return (type(o).__name__,) + tuple(static_fp(v_, depth + 1) for v_ in o)
+    if o is None or isinstance(o, (bool, int, float, str, slice)):
+        return repr(o)
+    if callable(o):
+        return "callable:" + getattr(o, "__qualname__", type(o).__name__)
+    return type(o).__name__
+
+
 def snap(tree):
     leaves, treedef = jax.tree_util.tree_flatten(tree)
-    return (str(treedef), tuple((np.asarray(x).shape, str(np.asarray(x).dtype), np.asarray(x).tobytes()) for x in leaves))
+    return (str(treedef), tuple((np.asarray(x).shape, str(np.asarray(x).dtype), np.asarray(x).tobytes()) for x in leaves), static_fp(tree))
 
 
 def build_sets(case):
@@ -66,7 +87,9 @@ def build_sets(case):
     kind, form = case["kind"], case["form"]
     bk = c12.base_kind(kind)
     b = 2
-    P = c12.build(dict(kind=kind, site="both", b=b))
+    # the equation declares only one of its three parameters in its heterogeneity map (as "not heterogeneous"): the
+    # documentation allows missing keys
+    P = c12.build(dict(kind=kind, site="both", b=b), hetero={"c": None})
     nv = L.nvar_of(bk, P["d"])
     sets = {}
     for tag, salt, scale in (("a", 0, 1.0), ("b", 3, 1.15)):
